@@ -522,6 +522,16 @@ def rdr_obl(offer, cutat=0):
                bounds={'reader state': 'symbolic counters, both array forms', 'offered input': what}, functions=BLKR_FUNCS)
 
 
+def blkr_rev_obl(form):
+    o = blkr_obl(0, form, False)
+    o.name = 'r_block_s0_f%d_rev' % form
+    o.defines = list(o.defines) + ['BLKR_REVERSE=1']
+    o.desc = o.desc.replace('CdnsBlockRead::read on a block offered as:', 'CdnsBlockRead::read on a block whose members arrive in DESCENDING key order (unknown member first, block preamble last), offered as:')
+    o.bounds = dict(o.bounds, **{'member order': 'descending keys (the ascending order: r_block_s0_f%d)' % form})
+    return o
+
+
+BLKR_REV = [blkr_rev_obl(0)]
 BLKR_QUICK = [blkr_obl(0, 0, False), blkr_obl(0, 3, False), blkr_obl(0, 0, True), blkr_obl(0, 3, True), blkr_obl(1, 0, False), blkr_obl(2, 0, False)]
 BLKR_READER = [rdr_obl(k) for k in range(3)] + [rdr_obl(3, c) for c in (1, 3, 5)]
 
@@ -534,7 +544,9 @@ PROPS['C05']['assumptions'] = list(PROPS['C05'].get('assumptions', [])) + BLKR_A
 PROPS['C01']['obligations'] = PROPS['C01']['obligations'] + [_byname[n] for n in ('r_block_s0_f0', 'r_block_s0_f3', 'r_block_s1_f0', 'reader_block_o0')]
 PROPS['C01']['explanation'] += ' Reader side of a whole block: r_block_* (CdnsBlockRead::read with nested reads as contracts: members, record order, parameter set, time conversion data flow), reader_block_o0 (CdnsReader::read_block).'
 PROPS['C08']['obligations'] = PROPS['C08']['obligations'] + [_byname[n] for n in ('r_block_s0_f0', 'r_block_s0_f3')]
-PROPS['C03']['obligations'] = PROPS['C03']['obligations'] + [_byname[n] for n in ('r_block_s2_f0', 'r_block_s0_f0_cut')]
+PROPS['C08']['obligations'] = PROPS['C08']['obligations'] + BLKR_REV
+PROPS['C01']['obligations'] = PROPS['C01']['obligations'] + BLKR_REV
+PROPS['C03']['obligations'] = PROPS['C03']['obligations'] + [_byname[n] for n in ('r_block_s2_f0', 'r_block_s0_f0_cut', 'r_block_s0_f0', 'r_block_s0_f3')]
 
 
 # ---- file-level reader (harness/hdr.cpp): CdnsReader::CdnsReader / read_file_header, FilePreamble::read replaced by its contract ----------------
@@ -552,3 +564,38 @@ HDR_OBL = Obl('reader_header', 'hdr.cpp', 'noctor:h_reader_header', unwind=30, t
 for _p in ('C03', 'C05', 'C08', 'C09'):
     PROPS[_p]['obligations'] = PROPS[_p]['obligations'] + [HDR_OBL]
     PROPS[_p]['assumptions'] = list(PROPS[_p].get('assumptions', [])) + HDR_ASSUME
+
+
+# ---- C19 at block level (harness/cpy.cpp): the copy/move operations CdnsBlockRead adds on top of CdnsBlock, CdnsBlock::operator= as a contract ----------------
+CPY_REDIRECT = ('_ZN4CDNS9CdnsBlockaSERS0_=stub_block_assign@cdns',)
+CPY_FUNCS = ['CDNS::CdnsBlockRead::CdnsBlockRead(CdnsBlockRead&) / (CdnsBlockRead&&) / operator=(CdnsBlockRead&) / operator=(CdnsBlockRead&&)', 'CDNS::CdnsBlock::CdnsBlock(CdnsBlock&) / (CdnsBlock&&) when reached',
+             'contract instead of: CdnsBlock::operator=(CdnsBlock&) (member-wise copy; tables: copy_tbl_ctor / copy_tbl_assign)']
+CPY_OBL = Obl('copy_blockread', 'cpy.cpp', 'noctor:h_copy_blockread', unwind=6, timeout=900, mem_gb=16, redirect=CPY_REDIRECT, opt='-O1 -fno-inline', extra=('--object-bits', '12'),
+              desc='CdnsBlockRead obtained by copy construction, move construction, copy assignment or move assignment (symbolic choice) from a partly read block (cursors anywhere, 0..2 address events): '
+                   'the base part is copied exactly once from the source; the cursors of the copy are reset to the start of its own containers',
+              bounds={'operation': 'copy/move construction, copy/move assignment (symbolic)', 'address events': '0..2 (symbolic)', 'cursors of source and target': 'any value',
+                      'CdnsBlock::operator=': 'contract (member-wise copy)'}, functions=CPY_FUNCS)
+PROPS['C19']['obligations'] = PROPS['C19']['obligations'] + [CPY_OBL]
+PROPS['C19']['explanation'] += (' Block level (cpy.cpp): the four copy/move operations of CdnsBlockRead are executed with CdnsBlock::operator= replaced by its contract; decided: the base part is copied exactly once, '
+                                'the read cursors of the copy are reset to the copy\'s own containers whatever the cursors of the source were.')
+PROPS['C19']['assumptions'] = list(PROPS['C19'].get('assumptions', [])) + ['CdnsBlock::operator=(CdnsBlock&) replaced by the contract "member-wise copy" in copy_blockread (tables: copy_tbl_*; the whole-block copy itself is outside the bound)']
+
+
+# ---- generic section lists (harness/hint.cpp h_generic_lists): add_generic_rrlist / add_generic_qlist ----------------
+GLIST_FUNCS = ['CDNS::CdnsBlock::add_generic_rrlist', 'CDNS::CdnsBlock::add_generic_qlist', 'CDNS::CdnsBlock::add_name_rdata/add_classtype/add_rr/add_question/add_rr_list/add_question_list', 'BlockTable<T>::add / find']
+
+
+def glist_obl(name, defines, tiers, what, timeout=1500, mem_gb=20):
+    return Obl(name, 'hint.cpp', 'noctor:h_generic_lists', unwind=6, unwindset=TBL_US, timeout=timeout, mem_gb=mem_gb, defines=defines, tiers=tiers,
+               desc='add_generic_rrlist / add_generic_qlist on a list of two records under every RR hint mask (%s): the returned list index and every index in the stored list are valid; '
+                    'each stored RR / question denotes exactly the record it was built from (TTL / RDATA present iff hinted and supplied by that record, nothing inherited from the previous one)' % what,
+               bounds={'records per list': 2, 'strings': '<= 2 bytes', 'RR hint mask': 'all 2^8 values (symbolic)', 'block tables': 'empty before the call', 'record values': what}, functions=GLIST_FUNCS)
+
+
+GLIST_OBLS = [glist_obl('generic_lists_rr_distinct', ['GLIST_RR=1', 'GLIST_CONCRETE=1'], ('thorough',), 'RR list; names, class/types, RDATA bytes concrete and distinct; presence of TTL/RDATA per record and TTL values symbolic'),
+              glist_obl('generic_lists_rr_equal', ['GLIST_RR=1', 'GLIST_CONCRETE=2'], ('thorough',), 'RR list; both records with the same name and class/type (de-duplicated table entries); presence of TTL/RDATA per record and TTL values symbolic'),
+              glist_obl('generic_lists_q', ['GLIST_RR=0', 'GLIST_CONCRETE=1'], ('thorough',), 'question list; names and class/types concrete and distinct'),
+              glist_obl('generic_lists_symbolic', [], ('thorough',), 'RR or question list (symbolic choice), every member of both records symbolic; may end without a verdict (20 GB exhausted after 828 s in round 2): reported inconclusive', timeout=3000, mem_gb=30)]
+for _p in ('C11', 'C01', 'C04'):
+    PROPS[_p]['obligations'] = PROPS[_p]['obligations'] + GLIST_OBLS
+    PROPS[_p]['assumptions'] = list(PROPS[_p].get('assumptions', [])) + ['generic_lists_*: model containers (stubs/), lists of two records, tables empty before the call; quick tier: names / class-types / RDATA bytes concrete, presence and TTL values and hint mask symbolic']
